@@ -84,13 +84,16 @@ pub fn plain_run(shapes: &[Shape], with_shx: bool) -> (Vec<u8>, Vec<u8>) {
 }
 
 /// perform one history on the real writer and log it
+/// what can be observed of the destinations between two calls
+pub struct Obs {
+    pub shp: Vec<u8>,
+    pub shx: Vec<u8>,
+    pub calls: (usize, usize),
+    pub nops: (usize, usize),
+    pub flushed: (bool, bool),
+}
+
 pub fn run_history(tr: &mut Trace, c: &Conc, t: i32, with_shx: bool, hist: &str, syms: &Syms, prop: &str, short: Option<Vec<usize>>) {
-    let sa = build(c, &syms.a);
-    let sb = build(c, &syms.b);
-    let sx = build(c, &syms.x);
-    let (oa, ob, ox) = (abstract_shape(c, &sa), abstract_shape(c, &sb), abstract_shape(c, &sx));
-    tr.run(json!({"ev": "reset", "kind": "writer", "t": t, "tx": syms.x.t, "withShx": with_shx, "hist": hist, "prop": prop,
-                  "shortWrites": short.clone().unwrap_or_default()}));
     let shp = LogDest::new();
     let shx = LogDest::new();
     if let Some(s) = &short {
@@ -98,11 +101,48 @@ pub fn run_history(tr: &mut Trace, c: &Conc, t: i32, with_shx: bool, hist: &str,
         shp.set_schedule(s.clone());
         shx.set_schedule(s.clone());
     }
-    let mut w = Some(if with_shx { ShapeWriter::with_shx(shp.clone(), shx.clone()) } else { ShapeWriter::new(shp.clone()) });
+    let (s1, x1) = (shp.clone(), shx.clone());
+    let w = if with_shx { ShapeWriter::with_shx(shp.clone(), shx.clone()) } else { ShapeWriter::new(shp.clone()) };
+    let observe = move || Obs { shp: s1.bytes(), shx: x1.bytes(), calls: (s1.calls(), x1.calls()), nops: (s1.nops(), x1.nops()),
+                                flushed: (s1.is_flushed(), x1.is_flushed()) };
+    let (s2, x2) = (shp.clone(), shx.clone());
+    let fx = move |n1: usize, n2: usize| (effects_json(&s2.ops()[n1..]), effects_json(&x2.ops()[n2..]));
+    run_history_on(tr, c, t, with_shx, hist, syms, prop, short.unwrap_or_default(), true, w, &observe, &fx);
+}
+
+/// the same history on files created by path (BufWriter<File>): what is on disk after each
+/// finalize and after drop must be complete; I/O of individual calls cannot be observed
+pub fn run_history_path(tr: &mut Trace, c: &Conc, t: i32, hist: &str, syms: &Syms, prop: &str, path: &std::path::Path) {
+    let w = match ShapeWriter::from_path(path) {
+        Ok(w) => w,
+        Err(_) => return,
+    };
+    let p = path.to_path_buf();
+    let observe = move || Obs { shp: std::fs::read(&p).unwrap_or_default(), shx: std::fs::read(p.with_extension("shx")).unwrap_or_default(),
+                                calls: (0, 0), nops: (0, 0), flushed: (true, true) };
+    let fx = |_: usize, _: usize| (json!([]), json!([]));
+    run_history_on(tr, c, t, true, hist, syms, prop, vec![], false, w, &observe, &fx);
+    let _ = std::fs::remove_file(path);
+    let _ = std::fs::remove_file(path.with_extension("shx"));
+}
+
+#[allow(clippy::too_many_arguments)]
+pub fn run_history_on<T: std::io::Write + std::io::Seek>(
+    tr: &mut Trace, c: &Conc, t: i32, with_shx: bool, hist: &str, syms: &Syms, prop: &str, short: Vec<usize>, observed: bool,
+    writer: ShapeWriter<T>, observe: &dyn Fn() -> Obs, fx: &dyn Fn(usize, usize) -> (Value, Value),
+) {
+    let sa = build(c, &syms.a);
+    let sb = build(c, &syms.b);
+    let sx = build(c, &syms.x);
+    let (oa, ob, ox) = (abstract_shape(c, &sa), abstract_shape(c, &sb), abstract_shape(c, &sx));
+    tr.run(json!({"ev": "reset", "kind": "writer", "t": t, "tx": syms.x.t, "withShx": with_shx, "hist": hist, "prop": prop,
+                  "shortWrites": short, "observed": observed}));
+    let mut w = Some(writer);
     let mut accepted: Vec<Shape> = vec![];
     for ch in hist.chars() {
-        let (n1, n2) = (shp.nops(), shx.nops());
-        let (c1, c2) = (shp.calls(), shx.calls());
+        let o0 = observe();
+        let (n1, n2) = o0.nops;
+        let (c1, c2) = o0.calls;
         match ch {
             'a' | 'b' | 'x' => {
                 let (s, o) = match ch {
@@ -118,9 +158,12 @@ pub fn run_history(tr: &mut Trace, c: &Conc, t: i32, with_shx: bool, hist: &str,
                 }
                 e["ev"] = json!("write");
                 e["shape"] = o.to_json();
-                e["io"] = json!(shp.calls() != c1 || shx.calls() != c2);
-                e["fxShp"] = effects_json(&shp.ops()[n1..]);
-                e["fxShx"] = effects_json(&shx.ops()[n2..]);
+                let o1 = observe();
+                // (by path nothing can be observed of a single call: say what the result implies)
+                e["io"] = json!(if observed { o1.calls != (c1, c2) } else { e["res"] == "ok" });
+                let (f1, f2) = fx(n1, n2);
+                e["fxShp"] = f1;
+                e["fxShx"] = f2;
                 tr.emit(e);
             }
             'F' => {
@@ -128,14 +171,15 @@ pub fn run_history(tr: &mut Trace, c: &Conc, t: i32, with_shx: bool, hist: &str,
                 let r = guarded(|| wr.finalize());
                 let mut e = write_res(r);
                 e["ev"] = json!("finalize");
-                e["io"] = json!(shp.calls() != c1 || shx.calls() != c2);
+                let o1 = observe();
+                e["io"] = json!(if observed { o1.calls != (c1, c2) } else { true });
                 // a finalize that issued no operation cannot have changed a byte: the files
                 // are those of the previous commit point and are not shipped again
                 let io = e["io"] == json!(true);
-                e["shp"] = jbytes(&if io { shp.bytes() } else { vec![] });
-                e["shx"] = jbytes(&if io { shx.bytes() } else { vec![] });
-                e["flushedShp"] = json!(shp.is_flushed());
-                e["flushedShx"] = json!(shx.is_flushed());
+                e["shp"] = jbytes(&if io { o1.shp.clone() } else { vec![] });
+                e["shx"] = jbytes(&if io { o1.shx.clone() } else { vec![] });
+                e["flushedShp"] = json!(o1.flushed.0);
+                e["flushedShx"] = json!(o1.flushed.1);
                 tr.emit(e);
             }
             'D' | 'W' => {
@@ -164,10 +208,11 @@ pub fn run_history(tr: &mut Trace, c: &Conc, t: i32, with_shx: bool, hist: &str,
                 let mut e = res;
                 e["ev"] = json!(if ch == 'D' { "drop" } else { "consume" });
                 e["shapes"] = json!([oa.to_json(), ob.to_json()]);
-                e["shp"] = jbytes(&shp.bytes());
-                e["shx"] = jbytes(&shx.bytes());
-                e["flushedShp"] = json!(shp.is_flushed());
-                e["flushedShx"] = json!(shx.is_flushed());
+                let o1 = observe();
+                e["shp"] = jbytes(&o1.shp);
+                e["shx"] = jbytes(&o1.shx);
+                e["flushedShp"] = json!(o1.flushed.0);
+                e["flushedShx"] = json!(o1.flushed.1);
                 e["plainShp"] = jbytes(&ps);
                 e["plainShx"] = jbytes(&px);
                 tr.emit(e);
@@ -223,6 +268,7 @@ pub fn run(a: &Args) {
             }
         }
     }
+    let tmpdir = if a.has("nopath") { None } else { Some(crate::cmd_codec::TmpDir::new(&out, "writer")) };
     let mut traces: Vec<Trace> = vec![];
     let mut concs: Vec<Conc> = vec![];
     for ch in 0..chunks {
@@ -273,6 +319,19 @@ pub fn run(a: &Args) {
                         distinct.insert((t, ws, hh.clone()));
                         run_history(&mut traces[i], &concs[i], t, ws, &hh, &syms, &prop, None);
                     }
+                }
+            }
+        }
+        // 2b. the same on files created by path (BufWriter<File>)
+        if let Some(tmp) = &tmpdir {
+            let syms = random_syms(&mut r, t, xs[0]);
+            for h in all_hists(&['a', 'b', 'x', 'F'], maxlen.min(if a.num("pathlen", 2) as usize > 0 { a.num("pathlen", 2) as usize } else { 0 })) {
+                for ending in ["D", "FD"] {
+                    let hh = format!("{}{}", h, ending);
+                    let i = k % chunks;
+                    k += 1;
+                    distinct.insert((t, true, format!("path:{}", hh)));
+                    run_history_path(&mut traces[i], &concs[i], t, &hh, &syms, &prop, &tmp.0.join(format!("p{}.shp", k)));
                 }
             }
         }
